@@ -87,7 +87,7 @@ def install():
         if event == "exec":
             co = args[0]
             try:
-                if co.co_filename == "<string>":
+                if co.co_filename.startswith("<"):
                     f = sys._getframe(1)
                     if f.f_code.co_filename.endswith("compiler/python/__init__.py"):
                         exec_events.append(co)
